@@ -1,5 +1,6 @@
 CONSTANTS
   Depth2 = TRUE
+  Full2 = FALSE
   OutFile = "type_cases.ndjson"
 INIT Init
 NEXT Next
